@@ -22,6 +22,14 @@ class Injected(Exception):
     pass
 
 
+class InjectedBase(BaseException):
+    """A failure that is not an Exception subclass (like KeyboardInterrupt raised from the callable)."""
+
+
+FAULT_TYPES = [Injected, StopIteration, InjectedBase, ZeroDivisionError, KeyError]
+CAUGHT = (Injected, StopIteration, InjectedBase, ZeroDivisionError, KeyError, RuntimeError)
+
+
 def plan(tier, seed):
     specs = []
     shapes = [(t, l) for t in range(1, 9) for l in range(1, 9)]
@@ -93,13 +101,16 @@ def edit(res, rng, api, pat, proj, setter, fault_at, scribble, dup_yield, case):
     before_cells = [[n.raw_data for n in line] for line in pat.data]
     expected = [row[:] for row in before_cells]
     counter = {"n": 0}
+    # which exception the callable fails with is part of the fault (a generator cannot leak StopIteration: PEP 479 turns it into RuntimeError)
+    fault_type = FAULT_TYPES[(fault_at or 0) % len(FAULT_TYPES)] if fault_at is not None else Injected
+    res.hist("fault_exception_types", fault_type.__name__) if fault_at is not None else None
 
     if setter == "fn":
         def fn(p, ln, tr):
             k = counter["n"]
             counter["n"] += 1
             if fault_at is not None and k == fault_at:
-                raise Injected(f"cell {k}")
+                raise fault_type(f"cell {k}")
             if p is not pat:
                 raise AssertionError("fn called with a different pattern")
             note = make_note(rng, api)
@@ -121,23 +132,30 @@ def edit(res, rng, api, pat, proj, setter, fault_at, scribble, dup_yield, case):
                     new[s_ln][s_tr] = n2
                     expected[s_ln][s_tr] = n2.raw_data
                 if fault_at is not None and counter["n"] == fault_at:
-                    raise Injected(f"yield {counter['n']}")
+                    raise fault_type(f"yield {counter['n']}")
                 counter["n"] += 1
                 note = make_note(rng, api)
                 expected[ln][tr] = note.raw_data
                 yield ln, tr, note
             if fault_at is not None and counter["n"] == fault_at:
-                raise Injected("after last yield")
+                raise fault_type("after last yield")
         call = lambda: pat.set_via_gen(gen)
 
     try:
         r = call()
         raised = None
-    except Injected as e:
+    except CAUGHT as e:
         raised = e
     except Exception as e:
         res.violation(f"C19:unexpected-exception:{setter}", f"{setter} raised {e!r}", case)
         return False
+    if raised is None and fault_at is not None and counter["n"] > fault_at:
+        # the callable DID fail (the fault point was reached) but the setter returned normally: the failure was swallowed
+        res.count("edits_failed_injected")
+        if pat.raw_data != before_raw:
+            res.violation(f"C19:not-atomic:{setter}:swallowed-{fault_type.__name__}", f"{setter}: the callable failed with {fault_type.__name__} at {fault_at}, the setter returned normally and the pattern was partly replaced", case)
+            return False
+        return True
     if raised is not None:
         res.count("edits_failed_injected")
         res.count("atomicity_checks")
